@@ -5,7 +5,8 @@ import ast
 
 from sa.core import Ob
 from sa.pm import AnalysisError, norm, body_nodes
-from sa import gi, df, ru
+from sa import gi, df, ru, sym
+from sa.pm import Undecided
 from sa.ex import EX
 from rules import netbind
 
@@ -91,25 +92,30 @@ def cache_calls(ctx):
 # ------------------------------------------------------------------ C18.2
 def c18_2(ctx):
     f = ctx.func(PSTR, "parseable_str.cache")
-    tries = [n for n in body_nodes(f.node) if isinstance(n, ast.Try)]
-    ok = len(tries) == 1
-    if ok:
-        t = tries[0]
-        hs = [df.dotted(x) for h in t.handlers for x in ((h.type.elts if isinstance(h.type, ast.Tuple) else [h.type]) if h.type is not None else [ast.Name("BaseException")])]
-        ok = any(h in ("Exception", "BaseException") for h in hs)
-        ctx.check(ok, "cache-swallows-every-exception", ctx.where(f, t),
-                  "parseable_str.cache converts only %s to `not parseable`; the decoders it wraps (base58, bech32 ...) fail with IndexError / KeyError / TypeError on malformed text, so anything narrower than Exception lets parsing raise" % hs,
-                  sample={"handlers": hs})
-        pre = [st for st in body_nodes(f.node) if isinstance(st, ast.Assign) and norm(st.targets[0]) == "self._cache[key]" and isinstance(st.value, ast.Constant) and st.value.value is None]
-        ctx.check(bool(pre) and pre[0].lineno < t.lineno, "cache-none-first", ctx.where(f), "parseable_str.cache does not record None before running the decoder")
-    else:
-        ctx.bad("cache-shape", ctx.where(f), "parseable_str.cache has no single try around the decoder call")
+    keyp, fp = f.params()[1:3]
+    w = sym.walk(ctx, f)
+    calls = [e for e in w.effects if e.kind == "call" and norm(e.raw.func) == fp]
+    if not calls:
+        raise Undecided("parseable_str.cache does not call its decoder argument directly")
+    for e in calls:
+        names = set()
+        for t in sym.enclosing_tries(f.node, e.node):
+            names |= sym.handler_names(t)
+        ctx.check(bool(names & {"Exception", "BaseException"}), "cache-swallows-every-exception", ctx.where(f, e.node),
+                  "parseable_str.cache converts only %s to `not parseable`; the decoders it wraps (base58, bech32 ...) fail with IndexError / KeyError / TypeError on malformed text, so anything narrower than Exception lets parsing raise" % sorted(names),
+                  sample={"handlers": sorted(names)})
+        pre = [x for x in w.effects if x.kind == "setitem" and norm(x.target) == "self._cache" and norm(x.key) == keyp and isinstance(x.value, ast.Constant) and x.value.value is None]
+        ok = bool(pre) and w.effects.index(pre[0]) < w.effects.index(e) and sym.entails(e.reach, pre[0].reach)
+        ctx.check(ok, "cache-none-first", ctx.where(f), "parseable_str.cache does not record None before running the decoder")
     # cache keys identify the decoding function uniquely (one string object is shared between networks)
     keys = {}
-    for m in ctx.p.modules.values():
-        for n in ast.walk(m.tree):
-            if isinstance(n, ast.Call) and isinstance(n.func, ast.Attribute) and n.func.attr == "cache" and len(n.args) == 2 and isinstance(n.args[0], ast.Constant) and isinstance(n.args[0].value, str):
-                keys.setdefault(n.args[0].value, set()).add((norm(n.args[1]) if not isinstance(n.args[1], ast.Lambda) else "lambda@%s" % m.name, "%s:%d" % (m.relpath, n.lineno)))
+    for m, n, key, fn in cache_calls(ctx):
+        if isinstance(key, ast.Constant) and isinstance(key.value, str):
+            keys.setdefault(key.value, set()).add((norm(fn) if not isinstance(fn, ast.Lambda) else "lambda@%s" % m.name, "%s:%d" % (m.relpath, n.lineno)))
+        elif m.relpath.startswith("pycoin/networks/") or m.relpath.startswith("pycoin/coins/"):
+            dep = isinstance(fn, ast.Lambda) and any(isinstance(x, ast.Name) and x.id == "self" for x in ast.walk(fn.body))
+            ctx.check(not dep, "cache-network-independent:%s" % norm(key)[:30], "%s:%d" % (m.relpath, n.lineno),
+                      "`%s` is cached on the parseable_str object, which is shared between networks, but the cached function reads network state (self.*): the verdict of one network is returned for another" % norm(key)[:60])
     for k, fs in sorted(keys.items()):
         names = {a for a, b in fs}
         ctx.check(len(names) == 1, "cache-key-unique:%s" % k, sorted(fs)[0][1],
@@ -121,19 +127,27 @@ def c18_2(ctx):
 # ------------------------------------------------------------------ C18.3
 def c18_3(ctx):
     h = ctx.func(PARSE, "hparse")
-    w = gi.GuardWalker(gi.SymbolicAtomizer(ru.subject({"len(data)"}), df.const_int))
-    ex = w.run(h.node.body)
-    acc = [e for e in ex if e.kind == "return" and not (isinstance(e.value, ast.Constant) and e.value.value is None)]
-    s = gi.IntSet.empty()
-    for e in acc:
-        s = s | gi.sat_set(e.cond, gi.IntSet.all(), gi.IntSet.empty())
-    ctx.check(s == gi.iv(78, 78), "extended-key-length", ctx.where(h), "hparse hands payloads of length %s to the deserializer; a BIP32 extended key is exactly 78 bytes" % s.fmt(), sample={"subject": "len(data)", "accepted": s.fmt()})
-    tries = [n for n in body_nodes(h.node) if isinstance(n, ast.Try) and any("parse_method(data)" in norm(x) for x in n.body)]
-    hs = {(df.dotted(x) or "").split(".")[-1] for t in tries for hh in t.handlers for x in ((hh.type.elts if isinstance(hh.type, ast.Tuple) else [hh.type]) if hh.type is not None else [])}
-    ctx.check(bool(hs & {"ValueError", "Exception"}), "extended-key-errors", ctx.where(h), "hparse lets the deserializer's ValueError family (bad exponent, no curve point, bad SEC) escape")
-    t = norm(h.node)
-    ctx.check("attr_name = '_%s_%s_prefix' % (key_type, pub_prv)" in t and "not data.startswith(prefix)" in t and "parse_method_name = '%s_deserialize' % key_type" in t, "extended-key-prefix", ctx.where(h),
-              "hparse does not select the prefix attribute and deserializer of the same key type")
+    api, pub_prv, key_type, s_ = h.params()[:4]
+    D = "%s.parse_b58_hashed(%s)" % (api, s_)
+    w = sym.int_walk(ctx, h, {"len(%s)" % D})
+    des = [e for e in w.effects if e.kind == "call" and isinstance(e.call.func, ast.Call) and norm(e.call.func.func) == "getattr" and norm(e.call.func.args[0]) == "%s._network.keys" % api]
+    if not des:
+        raise Undecided("hparse: the deserializer is not looked up with getattr(api._network.keys, ...) and called directly")
+    for e in des:
+        s = sym.may_set(e.reach, gi.IntSet.all(), gi.IntSet.empty())
+        ctx.check(s == gi.iv(78, 78), "extended-key-length", ctx.where(h, e.node), "hparse hands payloads of length %s to the deserializer; a BIP32 extended key is exactly 78 bytes" % s.fmt(), sample={"subject": "len(data)", "accepted": s.fmt()})
+        names = set()
+        for t in sym.enclosing_tries(h.node, e.node):
+            names |= sym.handler_names(t)
+        ctx.check(bool(names & {"ValueError", "Exception", "BaseException"}), "extended-key-errors", ctx.where(h, e.node), "hparse lets the deserializer's ValueError family (bad exponent, no curve point, bad SEC) escape")
+        name_expr = norm(e.call.func.args[1]) if len(e.call.func.args) > 1 else ""
+        ops = gi.f_opaques(e.reach) if e.reach not in (True, False) else []
+        pre = [o for o in ops if o.startswith("truthy(%s.startswith(getattr(%s, " % (D, api))]
+        if not pre or key_type not in name_expr:
+            raise Undecided("hparse: prefix attribute / deserializer name are not both derived from key_type in a recognisable way")
+        attr_expr = pre[0][len("truthy(%s.startswith(getattr(%s, " % (D, api)):]
+        ctx.check(sym.entails(e.reach, ("op", pre[0])) and key_type in attr_expr and pub_prv in attr_expr and name_expr.startswith("'%s_deserialize' % ") and name_expr.endswith(key_type),
+                  "extended-key-prefix", ctx.where(h, e.node), "hparse does not select the prefix attribute (`%s`) and the deserializer (`%s`) of the same key type" % (attr_expr[:50], name_expr[:50]))
     from rules import C10, C08
     C10.c10_3(ctx)
     C08.c08_2(ctx)
@@ -142,19 +156,49 @@ def c18_3(ctx):
 # ------------------------------------------------------------------ C18.4
 def c18_4(ctx):
     f = ctx.func(PARSE, "ParseAPI.sec")
-    cmps = [n for n in body_nodes(f.node) if isinstance(n, ast.Compare) and "pair[0]" in norm(n)]
-    ok = len(cmps) == 1 and "self._sec_prefix" in norm(cmps[0]) and "_wif_prefix" not in norm(cmps[0])
-    ctx.check(ok, "sec-prefix", ctx.where(f), "ParseAPI.sec compares the colon prefix in `%s`; the text form written by Key.sec_as_hex carries the network's SEC prefix" % [norm(c) for c in cmps], sample={"comparison": [norm(c) for c in cmps]})
+    s_ = f.params()[1]
+    w = sym.walk(ctx, f)
+    PAIR = "parse_colon_prefix(%s)" % s_
+    uses = [e for e in sym.calls_matching(w, lambda t: t == "h2b") if e.call.args and norm(e.call.args[0]) == "%s[1]" % PAIR]
+    if not uses:
+        raise Undecided("ParseAPI.sec: the text after the colon prefix is not passed to h2b directly")
+    for e in uses:
+        ops = gi.f_opaques(e.reach) if e.reach not in (True, False) else []
+        eq = [o for o in ops if "self._sec_prefix" in o and "%s[0]" % PAIR in o and " == " in o]
+        ok = bool(eq) and sym.entails(e.reach, ("op", eq[0])) and not any("_wif_prefix" in o for o in ops)
+        ctx.check(ok, "sec-prefix", ctx.where(f, e.node), "ParseAPI.sec strips the colon prefix under `%s`; the text form written by Key.sec_as_hex carries the network's SEC prefix (self._sec_prefix), which must be what is compared"
+                  % [o for o in ops if PAIR in o], sample={"comparison": eq or ops})
     b = ctx.func("pycoin/networks/bitcoinish.py", "create_bitcoinish_network")
-    t = norm(b.node)
-    ctx.check("kwargs.setdefault('sec_prefix', '%sSEC:' % symbol.upper())" in t and "return _sec_prefix + b2h(blob)" in t, "sec-writer", ctx.where(b), "the default SEC text prefix is not `<SYMBOL>SEC:` + hex")
-    # every as_text goes through the writer the parser mirrors
-    k = ctx.func("pycoin/key/Key.py", "Key.as_text")
-    t = norm(k.node)
-    ctx.check("return self.wif()" in t and "sec_hex = self.sec_as_hex()" in t, "key-as-text", ctx.where(k), "Key.as_text is not WIF for private keys, prefixed SEC hex otherwise")
-    for rel, cls, fn in (("pycoin/key/BIP32Node.py", "BIP32Node", "bip32_as_string"), ("pycoin/key/BIP49Node.py", "BIP49Node", "bip49_as_string"), ("pycoin/key/BIP84Node.py", "BIP84Node", "bip84_as_string")):
-        m = ctx.func(rel, cls + ".hwif")
-        ctx.check("self._network.%s(self.serialize(as_private=as_private), as_private=as_private)" % fn in norm(m.node), "hwif:%s" % cls, ctx.where(m), "%s.hwif does not use %s" % (cls, fn))
+    wb = sym.walk(ctx, b)
+    dfl = [e for e in sym.calls_matching(wb, ".setdefault") if e.call.args and isinstance(e.call.args[0], ast.Constant) and e.call.args[0].value == "sec_prefix"]
+    if not dfl:
+        raise Undecided("create_bitcoinish_network: no setdefault('sec_prefix', ...)")
+    t = norm(dfl[0].call.args[1]) if len(dfl[0].call.args) > 1 else ""
+    ctx.check(t in ("'%sSEC:' % symbol.upper()", "symbol.upper() + 'SEC:'"), "sec-default", ctx.where(b, dfl[0].node), "the default SEC text prefix is `%s`, not `<SYMBOL>SEC:`" % t)
+    inner = ctx.func("pycoin/networks/bitcoinish.py", "create_bitcoinish_network.sec_text_for_blob")
+    wi = sym.walk(ctx, inner)
+    rets = [e for e in wi.exits if e.kind == "return" and e.value is not None]
+    ok = False
+    if len(rets) == 1 and isinstance(rets[0].value, ast.BinOp) and isinstance(rets[0].value.op, ast.Add) and isinstance(rets[0].value.left, ast.Name):
+        src = df.single_defs(b.node).get(rets[0].value.left.id)
+        ok = src is not None and "get('sec_prefix')" in norm(src) and norm(rets[0].value.right) == "b2h(%s)" % inner.params()[0]
+    ctx.check(ok, "sec-writer", ctx.where(inner), "sec_text_for_blob is not the configured sec_prefix + hex")
+    none = lambda t: False
+    sym.against_reference(ctx, ctx.func("pycoin/key/Key.py", "Key.as_text"), _ref(), "key_as_text", "key-as-text", none)
+    sym.against_reference(ctx, ctx.func("pycoin/key/Key.py", "Key.sec_as_hex"), _ref(), "key_sec_as_hex", "key-sec-as-hex", none)
+    for rel, cls, fn in (("pycoin/key/BIP32Node.py", "BIP32Node", "bip32_hwif"), ("pycoin/key/BIP49Node.py", "BIP49Node", "bip49_hwif"), ("pycoin/key/BIP84Node.py", "BIP84Node", "bip84_hwif")):
+        sym.against_reference(ctx, ctx.func(rel, cls + ".hwif"), _ref(), fn, "hwif:%s" % cls, none)
+
+
+_REF = None
+
+
+def _ref():
+    global _REF
+    if _REF is None:
+        import os
+        _REF = ast.parse(open(os.path.join(os.path.dirname(os.path.dirname(os.path.abspath(__file__))), "spec", "ref_text.py")).read())
+    return _REF
 
 
 # ------------------------------------------------------------------ C18.5
@@ -194,8 +238,8 @@ def c18_5(ctx):
 OBLIGATIONS = [
     Ob("C18.1", "exception escape of all parse entry points (ParseAPI + GRSParseAPI) is empty modulo the tabulated infeasible pairs", c18_1, floor=36, engines="EX,PM",
        breaks_if="checksummed WIF with exponent 0 / >= n; short extended key; x without curve point; electrum blobs"),
-    Ob("C18.2", "the decode cache swallows every Exception; cache keys identify one decoder", c18_2, floor=7, engines="CFG,TB", breaks_if="bech32 strings with empty data part; one string parsed on BTC then GRS"),
-    Ob("C18.3", "payload-length guards keep kinds apart: extended key 78, WIF 32/33, address 20", c18_3, floor=15, engines="GI,CFG", breaks_if="POLIS (WIF prefix == P2SH prefix)"),
-    Ob("C18.4", "the prefix an object's text form writes is the one its parser compares with", c18_4, floor=6, engines="DF"),
+    Ob("C18.2", "the decode cache swallows every Exception; cache keys identify one decoder", c18_2, floor=7, engines="SYM,TB", breaks_if="bech32 strings with empty data part; one string parsed on BTC then GRS"),
+    Ob("C18.3", "payload-length guards keep kinds apart: extended key 78, WIF 32/33, address 20", c18_3, floor=15, engines="SYM,GI", breaks_if="POLIS (WIF prefix == P2SH prefix)"),
+    Ob("C18.4", "the prefix an object's text form writes is the one its parser compares with", c18_4, floor=6, engines="SYM"),
     Ob("C18.5", "every network.<ns>.<name> path used by the API classes is provided by create_bitcoinish_network", c18_5, floor=30, engines="PM,TB", breaks_if="parse.hd_seed('P:foo')"),
 ]
